@@ -1292,8 +1292,9 @@ func (graph *Graph) recomputeNodeParallel(ctx context.Context, n INode) (err err
 //     asking, which is what makes the minimum sound to test against.
 //
 //   - The child's scope has already stabilized, i.e. the parent sits above the
-//     height of the bind that created the child. Otherwise the child could still
-//     be invalidated by that bind and must not be computed yet.
+//     height of the bind that created the child and nothing is queued at or below
+//     that height. Otherwise the child could still be invalidated by that bind and
+//     must not be computed yet.
 //
 //   - The child is a kind that may be recomputed out of heap order at all; see
 //     nodeRequiresHeapOrdering.
@@ -1303,7 +1304,15 @@ func (graph *Graph) recomputeNodeParallel(ctx context.Context, n INode) (err err
 //     by chaining never appears there.
 func (graph *Graph) canRecomputeImmediately(parent *Node, child INode) bool {
 	cn := child.Node()
-	if cn.always || cn.requiresHeapOrdering || parent.height <= cn.createdIn.scopeHeight() {
+	scopeHeight := cn.createdIn.scopeHeight()
+	if cn.always || cn.requiresHeapOrdering || parent.height <= scopeHeight {
+		return false
+	}
+	// The parent sitting above the bind that created the child says the bind has already
+	// run only when the pass got here in height order. A chain of direct recomputes runs
+	// ahead of the heap: the bind may still be queued below, about to discard the child.
+	// Nothing queued at or below the bind's height is what establishes that it is not.
+	if scopeHeight != HeightUnset && graph.recomputeHeap.minHeightUnsafe() <= scopeHeight {
 		return false
 	}
 	if len(cn.parents) == 1 {
